@@ -61,6 +61,7 @@ class Roles:
         self.arrays = {}      # array ast id -> role of the index of Select(array, idx)
         self.nested = {}      # outer array ast id -> (role outer idx, role inner idx)
         self.funcs = {}       # function name -> [role per argument or None]
+        self.afuncs = {}      # array-valued function name -> role of the index of Select(f(..), idx)
         self.seeds = {}       # role -> [terms] explicitly provided by the spec
 
     def array(self, arr, role):
@@ -72,6 +73,9 @@ class Roles:
     def func(self, f, roles):
         self.funcs[f.name()] = list(roles)
 
+    def afunc(self, f, role):
+        self.afuncs[f.name()] = role
+
     def seed(self, role, term):
         self.seeds.setdefault(role, []).append(term)
 
@@ -79,6 +83,7 @@ class Roles:
         self.arrays.update(other.arrays)
         self.nested.update(other.nested)
         self.funcs.update(other.funcs)
+        self.afuncs.update(other.afuncs)
         for k, v in other.seeds.items():
             self.seeds.setdefault(k, []).extend(v)
 
@@ -102,6 +107,11 @@ def collect_terms(exprs, roles, found, seen):
             r = roles.arrays.get(a.get_id())
             if r is not None:
                 found.setdefault(r, {}).setdefault(idx.get_id(), idx)
+            if r is None and z3.is_app(a) and a.num_args() and \
+                    a.decl().kind() == z3.Z3_OP_UNINTERPRETED:
+                r = roles.afuncs.get(a.decl().name())
+                if r is not None:
+                    found.setdefault(r, {}).setdefault(idx.get_id(), idx)
             if z3.is_select(a):
                 outer = base_array(a.arg(0))
                 rr = roles.nested.get(outer.get_id())
